@@ -103,6 +103,10 @@ func configs(thorough bool) []Config {
 
 		out = append(out, Config{Backend: "db", Format: "sha256", Perm: "none", Depth: 6})
 
+		// a legacy credential whose password is longer than bcrypt's 72 bytes:
+		// the upgrade must not start accepting other passwords with that prefix
+		out = append(out, Config{Backend: "file", Format: "sha256", Perm: "logon", Pw: longPw, Depth: 6})
+
 		sort.SliceStable(out, func(i, j int) bool { return weight(out[i]) > weight(out[j]) })
 
 		return out
